@@ -4,6 +4,7 @@
 import SchedVerif.Lemmas.Argmin
 import SchedVerif.Props.C03
 import SchedVerif.Props.C01
+import SchedVerif.Lemmas.Twins
 namespace SV
 
 theorem Timer.calcNext_skip_nc (tm : Timer) (hc : tm.timing.isCyclic = false) (hs : tm.skip = true) (r : DT) :
@@ -225,6 +226,19 @@ theorem C08.caught_up (tm0 : Timing) (hv : tm0.valid) (hc : tm0.isCyclic = false
     omega
   · have : ((q.toNat : Nat) : Int) = q := Int.toNat_of_nonneg hq0
     rw [this, Int.mul_comm]; omega
+
+/-- the Bool twin `skipDueB` evaluated by the driver on the implementation's due times IS the
+    skip_missing statement (occurrence of one of the times, not earlier than `t`, nothing skipped) -/
+theorem C08.skipDueB_iff (tms : List Timing) (hv : ∀ tm ∈ tms, tm.valid ∧ tm.isCyclic = false) (t g due : Int) :
+    skipDueB tms t g due = true ↔
+      (t ≤ due ∧ UnionOcc tms due ∧ ∀ tm ∈ tms, ∀ v, g < v → v < due → ¬ Occ tm v) :=
+  SV.skipDueB_iff tms hv t g due
+
+/-- the Bool twin `enumB` IS "the consumed due instants enumerate, in ascending order and without
+    omission or repetition, the union of the occurrences after the start" -/
+theorem C08.enumB_iff (tms : List Timing) (hne : tms ≠ []) (hv : ∀ tm ∈ tms, tm.valid ∧ tm.isCyclic = false)
+    (r : Int) (dues : List Int) : enumB tms r dues = true ↔ EnumSpec tms r dues :=
+  SV.enumB_iff tms hne hv r dues
 
 /-! non-vacuity: a fresh daily timer exists -/
 example : (Timer.init (.daily { h := 10, m := 0, s := 0, us := 0, off := none })
